@@ -674,14 +674,18 @@ func ruleC02_5(c *Ctx) {
 		okT := ok && strip(sl.X) == ssa.Value(bs) && sl.High == nil && sl.Low != nil
 		if okT {
 			okT = false
-			if ph, ok := sl.Low.(*ssa.Phi); ok {
+			if ph, ok := sl.Low.(*ssa.Phi); ok && sl.Low != ia.Index {
 				for _, e := range ph.Edges {
 					if expr(e) == expr(ia.Index) {
 						okT = true
 					}
 				}
-			} else if expr(sl.Low) == expr(ia.Index) {
+			} else if sl.Low == ia.Index || expr(sl.Low) == expr(ia.Index) {
 				okT = true
+			}
+			// cut and tail both computed by one helper (`Writev(unsentTail(bs, sent))`): the cut precedes the tail there
+			if okT && sl.Parent() == rewrite.Parent() && sl.Parent() != wv && !canReach(rewrite, sl) {
+				okT = false
 			}
 		}
 		c.check(okT && dominatesOrSameLoopExit(rewrite, bw.(ssa.Instruction)), "(*conn).writev: unsent tail", c.at(bw), "buffers bs[pos:] with pos the cut element",
@@ -691,7 +695,13 @@ func ruleC02_5(c *Ctx) {
 }
 
 // dominatesOrSameLoopExit: the spill happens after the rewrite on the path that performed it.
-func dominatesOrSameLoopExit(a, b ssa.Instruction) bool { return canReach(a, b) }
+func dominatesOrSameLoopExit(a, b ssa.Instruction) bool {
+	if la := lift(a, outermost(b.Parent())); la != nil {
+		// (when the rewrite happens inside a helper, la is the helper's call: before b or one of b's operands)
+		return canReach(la, b)
+	}
+	return false
+}
 
 // ---------------------------------------------------------------------------------------------
 // C02.6
